@@ -245,6 +245,12 @@ def rng_sections():
     return list(_SECTIONS)
 
 
+import gc as _gc  # noqa: E402
+
+# the shared default `Auto()` instances reachable from the public signatures (alg=Auto()): caller-visible
+# objects that no call may alter (S7)
+AUTO_DEFAULTS = [o for o in _gc.get_objects() if type(o).__name__ == "Auto" and type(o).__module__.startswith("cola.")]
+
 CRUMB_FD = None  # set by the zygote child: breadcrumbs written before a fault is armed
 
 
